@@ -64,11 +64,13 @@ def main():
             rows.append((sid, meta, fired))
     if not args:
         with open(os.path.join(VERIF, "seeded", "TABLE.md"), "w") as f:
-            f.write("| seeded change | property | what it changes (first line of the sub-agent's note) | caught by |\n|---|---|---|---|\n")
+            f.write("| seeded change | property | what it changes (first line of the sub-agent's note) | when it arrived | caught by (now) |\n|---|---|---|---|---|\n")
             for sid, meta, fired in rows:
                 first = next((ln.strip("# ").strip() for ln in meta.get("breaks", "").splitlines() if ln.strip()), "")
                 rules = sorted({m.group(1) for x in (fired or []) for m in [re.search(r": (R[\d.a-z]+) ", x)] if m})
-                f.write(f"| {sid} | {meta['property']} | {first[:140]} | {', '.join(rules) if rules else '**missed**' if fired is not None else 'n/a'} |\n")
+                arr = meta.get("caught_at_arrival")
+                arr_txt = "not recorded" if arr is None else ("missed" if not arr else "caught: " + ", ".join(sorted({m.group(1) for x in arr for m in [re.search(r": (R[\d.a-z]+) ", x)] if m})))
+                f.write(f"| {sid} | {meta['property']} | {first[:140]} | {arr_txt} | {', '.join(rules) if rules else '**missed**' if fired is not None else 'n/a'} |\n")
 
 
 if __name__ == "__main__":
